@@ -795,4 +795,107 @@ def r13p(F):
     return r
 
 
-RULES = [r13, r13p, r80, r82, r83, r97, r76, r77, r78, r98]
+# ------------------------------------------------------------------ R81c consistent stack effect of a handler
+STACK_EFFECT_BY_DESIGN = {
+    "op_and": "short circuit: a false left operand stays on the stack and the right operand is jumped over",
+    "op_or": "short circuit: a true left operand stays on the stack and the right operand is jumped over",
+    "op_select_jump": "a matching field consumes the selector value too, a non-matching one keeps it for the next comparison",
+    "op_module": "the optional out-expression pointer of the module is an operand only when the module has one",
+}
+
+
+def _stack_effects(F):
+    """{function: set of possible (pushes - pops) on its Ok paths | None when not analysable (stack traffic inside a loop)}"""
+    VMP = VM
+    memo = {}
+
+    def summary(n, stack=()):
+        if n in memo:
+            return memo[n]
+        if n in stack:
+            return None
+        fn = F.fns[n]
+        S = cfg.succs(fn)
+        loops = cfg.natural_loops(fn)
+        back = set(cfg.back_edges(fn))
+        inloop = set().union(*loops.values()) if loops else set()
+        unknown = False
+
+        def delta(b):
+            t = fn.term(b)
+            if t["k"] != "call":
+                return {0}
+            c = callee(t)
+            if c == VMP + "push":
+                return {1}
+            if c == VMP + "pop":
+                return {-1}
+            if c.startswith(VMP) and c in F.fns and c != n:
+                return summary(c, stack + (n,))
+            return {0}
+        inset = {0: {0}}
+        for b in cfg.rpo(fn):
+            if b not in inset:
+                continue
+            dl = delta(b)
+            if dl is None:
+                unknown = True
+                dl = {0}
+            if b in inloop and dl != {0}:
+                unknown = True
+            out = {x + y for x in inset[b] for y in dl}
+            if len(out) > 12:
+                unknown = True
+            for nx in S[b]:
+                if (b, nx) not in back:
+                    inset.setdefault(nx, set()).update(out)
+        res = set()
+        for b, j, pl, rv, m in fn.assigns():
+            if pl["l"] == 0 and not pl["p"] and rv["k"] == "agg" and rv.get("variant") == "Ok":
+                res |= inset.get(b, set())
+        for b, t in fn.calls():
+            if t["dest"]["l"] == 0 and not t["dest"]["p"] and callee(t).startswith(VMP):
+                dl = delta(b)
+                if dl is None:
+                    unknown = True
+                else:
+                    res |= {x + y for x in inset.get(b, set()) for y in dl}
+        memo[n] = None if unknown else res
+        return memo[n]
+    out = {}
+    for n in sorted(F.fns):
+        if n.startswith(VMP) and "{closure" not in n and not F.fns[n].derived:
+            out[n] = summary(n)
+    return out
+
+
+def r81c(F):
+    r = RuleResult("R81c", "every successful path of a VM handler leaves the same number of values",
+                   "for each VM::op_* handler and the helpers it calls: pushes minus pops (VM::push / VM::pop, summaries of callees "
+                   "included) is the same on every path that returns Ok -- a path that returns Ok without the push its siblings make "
+                   "leaves the next opcode to pop a value that is not there (the unreachable!() in VM::pop).  Handlers whose paths "
+                   "differ by design are listed by name with the reason; handlers with stack traffic inside a loop are not decided",
+                   floor=25, exhaustive=True)
+    fx = _stack_effects(F)
+    undecided = []
+    for n, s in sorted(fx.items()):
+        short = n.split("::")[-1]
+        if not (short.startswith("op_") or short.startswith("do_")):
+            continue
+        if s is None:
+            undecided.append(short)
+            continue
+        if not s:
+            continue
+        if short in STACK_EFFECT_BY_DESIGN:
+            r.inst(short, F.fns[n].where(), True, "effects %s by design: %s" % (sorted(s), STACK_EFFECT_BY_DESIGN[short]), nontrivial=False)
+            continue
+        ok = len(s) == 1
+        r.inst(short, F.fns[n].where(), ok, "net effect %+d on every Ok path" % next(iter(s)) if ok else
+               "%s returns Ok with net stack effects %s on different paths: on the path that pushes less, the opcode that follows pops "
+               "the wrong value or hits unreachable!() in VM::pop (`int([1])`)" % (short, sorted(s)))
+    r.note("not decided (stack traffic inside a loop): %s" % ", ".join(undecided))
+    return r
+
+
+RULES = [r13, r13p, r80, r81c, r82, r83, r97, r76, r77, r78, r98]
